@@ -38,11 +38,17 @@ def div_with_state(value, state):
     return [value + state['other'], value - state['other']]
 
 
+def div_count_state(value, state):
+    n = len(state)
+    names = sum(len(k) for k in state)
+    return [value + n + 10 * names, value - n]
+
+
 def div_skip(value):
     return None
 
 
-USER_DIV = {'frac': div_frac, 'with_state': div_with_state, 'skip': div_skip}
+USER_DIV = {'frac': div_frac, 'with_state': div_with_state, 'count_state': div_count_state, 'skip': div_skip}
 _FN_NAMES = {id(f): n for n, f in list(USER_UPD.items()) + list(USER_DIV.items())}
 
 
